@@ -5,3 +5,8 @@ namespace MidnightZK.C03.Driver
 def answer (_line : String) : String := "unimplemented"
 
 end MidnightZK.C03.Driver
+
+/-- `mzk-c03 < ops.txt > model.txt` : one answer line per request line. -/
+def main : IO UInt32 := do
+  MidnightZK.lineLoop (← IO.getStdin) (← IO.getStdout) MidnightZK.C03.Driver.answer
+  return 0
